@@ -21,6 +21,8 @@ pub struct Fail {
     pub expected: String,
     pub region: String,
     pub panic: Option<PanicInfo>,
+    /// The failing lookup was answered from the file installed by the atomic upgrade.
+    pub on_upgraded: bool,
 }
 
 #[derive(Clone, Debug)]
@@ -209,6 +211,7 @@ pub fn check_zone(
                     Footer::Rule(_) => "footer",
                 }),
                 panic: None,
+                on_upgraded: false,
             })
         }
         Err(_) => {
@@ -233,6 +236,7 @@ pub fn check_zone(
                 expected: "an offset".into(),
                 region: region(z, t),
                 panic: Some(p),
+                on_upgraded: false,
             });
         }
     };
@@ -261,6 +265,7 @@ pub fn check_zone(
                         expected: format!("{} ({}) at {}", w, render_offset(w), cal::fmt_unix(*t)),
                         region: reg,
                         panic: None,
+                        on_upgraded: false,
                     });
                 }
             }
@@ -349,6 +354,7 @@ fn real_path(
             expected: exp,
             region: region(zz, at),
             panic: p,
+            on_upgraded: !std::ptr::eq(zz, oracles.primary.1),
         };
         let (rb, fb) = (clock.reads_len(), fs.served_len());
         let out = guarded(|| Offset::Local.resolve());
@@ -582,15 +588,57 @@ pub fn minimise(case: &ZoneCase, z: &RefZone, fail: &Fail) -> (Vec<u8>, Fail) {
     (best_bytes, best)
 }
 
-pub fn to_violation(seed: u64, run: u64, case: &ZoneCase, z: &RefZone, f: &Fail, instants: &[i64]) -> Violation {
-    let full = Json::obj()
+pub fn knobs_to_json(j: Json, knobs: &Knobs, nanos: &[u32]) -> Json {
+    let j = j
+        .set("read_cost_ns", Json::Int(knobs.read_cost_ns as i128))
+        .set("battery_every", Json::Int(knobs.battery_every as i128))
+        .set("nanos_cycle", Json::Arr(nanos.iter().map(|n| Json::Int(*n as i128)).collect()));
+    match &knobs.upgrade {
+        Some((at, b)) => j.set("upgrade_before_local_lookup", Json::u(*at)).set("upgrade_tzif_hex", Json::s(&hex(b))),
+        None => j,
+    }
+}
+
+pub fn knobs_from_json(doc: &Json) -> (Knobs, Option<Vec<u32>>) {
+    let upgrade = match (doc.get("upgrade_before_local_lookup").and_then(|v| v.int()), doc.get("upgrade_tzif_hex").and_then(|v| v.str())) {
+        (Some(at), Some(h)) => unhex(h).ok().map(|b| (at as usize, b)),
+        _ => None,
+    };
+    let nanos = doc.get("nanos_cycle").and_then(|v| v.arr()).map(|a| a.iter().filter_map(|x| x.int().map(|i| i as u32)).collect::<Vec<u32>>());
+    (
+        Knobs {
+            read_cost_ns: doc.get("read_cost_ns").and_then(|v| v.int()).unwrap_or(0) as u64,
+            battery_every: doc.get("battery_every").and_then(|v| v.int()).unwrap_or(1) as u32,
+            upgrade,
+        },
+        nanos.filter(|n| !n.is_empty()),
+    )
+}
+
+#[allow(clippy::too_many_arguments)]
+pub fn to_violation(seed: u64, run: u64, case: &ZoneCase, z: &RefZone, f: &Fail, instants: &[i64], knobs: &Knobs, nanos: &[u32]) -> Violation {
+    // a lookup answered from the upgraded file is minimised against that file alone
+    let up_case;
+    let up_zone;
+    let (case, z) = match (&knobs.upgrade, f.on_upgraded) {
+        (Some((_, ub)), true) => match tzref::parse_tzif(ub) {
+            Ok(uz) => {
+                up_case = ZoneCase { label: format!("{} (file installed by the atomic upgrade)", case.label), source: case.source, bytes: ub.clone() };
+                up_zone = uz;
+                (&up_case, &up_zone)
+            }
+            Err(_) => (case, z),
+        },
+        _ => (case, z),
+    };
+    let full = knobs_to_json(Json::obj(), knobs, nanos)
         .set("property", Json::s("C18"))
         .set("engine", Json::s("tzsim"))
         .set("invariant", Json::s(f.invariant))
         .set("seed", Json::Int(seed as i128))
         .set("run", Json::Int(run as i128))
         .set("zone", Json::s(&case.label))
-        .set("tzif_hex", Json::s(&hex(&case.bytes)))
+        .set("tzif_hex", Json::s(&hex(if f.on_upgraded { &case.bytes } else { &case.bytes })))
         .set("instants", Json::Arr(instants.iter().map(|t| Json::Int(*t as i128)).collect()))
         .set("observed", Json::s(&f.observed))
         .set("expected", Json::s(&f.expected));
@@ -781,7 +829,7 @@ pub fn one_run(w: &Work, seed: u64, idx: u64, stats: &mut Stats) -> Option<u64> 
                 std::process::exit(2);
             }
             let h = fnv(format!("{:?}", (&f.invariant, f.t, &f.observed)).as_bytes());
-            stats.violations.push(to_violation(seed, idx, &case, &z, &f, &instants));
+            stats.violations.push(to_violation(seed, idx, &case, &z, &f, &instants, &knobs, &nanos));
             Some(h)
         }
     }
@@ -895,7 +943,8 @@ pub fn replay(doc: &Json) -> i32 {
             (instants_for(&z, &mut rng, 200, 24), vec![0])
         }
     };
-    let knobs = Knobs { read_cost_ns: 0, battery_every: 1, upgrade: None };
+    let (knobs, nanos_cycle) = knobs_from_json(doc);
+    let nanos = nanos_cycle.unwrap_or(nanos);
     match check_zone(&case, &z, &instants, &nanos, &knobs, &mut None) {
         Ok(_) => {
             println!("replay: all lookups agree with the reference");
